@@ -49,9 +49,9 @@ inductive Stmt where
   /-- `let <bind> = <Safe>[::<typed>]::from(<arg>);` — instantiates the `T: Copy` helper -/
   | safeFrom (bind : String) (safeName : String) (typed : Option String) (arg : String)
   /-- `unsafe { data.write(<off>, <src>.<field>); }` -/
-  | write (off : Nat) (src : String) (field : String)
+  | write (d : D) (src : String)
   /-- `let <bind>: <ty> = unsafe { <recv>.data.read(<off>) };` -/
-  | readLet (bind : String) (ty : String) (recv : String) (off : Nat)
+  | readLet (bind : String) (d : D) (recv : String)
   /-- `std::mem::forget(self);` -/
   | forgetSelf
   /-- `let manually_drop = std::mem::ManuallyDrop::new(from);` -/
@@ -65,8 +65,8 @@ inductive Stmt where
   /-- `<Name> { f1, f2 }` -/
   | retStruct (name : String) (fields : List String)
   /-- `unsafe { self.data.get::<ty>(off) }` / `get_mut` -/
-  | get (ty : String) (off : Nat)
-  | getMut (ty : String) (off : Nat)
+  | get (d : D)
+  | getMut (d : D)
   /-- anything else, verbatim tokens -/
   | raw (s : String)
 deriving Repr, DecidableEq, Inhabited
@@ -74,16 +74,16 @@ deriving Repr, DecidableEq, Inhabited
 def Stmt.render : Stmt → String
   | .letBuf m => s!"let {if m then "mut " else ""}data=RecordMaybeUninit::new();"
   | .safeFrom b n t a => s!"let {b}={n}{match t with | some t => "::<" ++ t ++ ">" | none => ""}::from({a});"
-  | .write o s f => "unsafe{data.write(" ++ toString o ++ "," ++ s ++ "." ++ f ++ ");}"
-  | .readLet b t r o => s!"let {b}:{t}=unsafe" ++ "{" ++ s!"{r}.data.read({o})" ++ "};"
+  | .write d s => "unsafe{data.write(" ++ toString d.offset ++ "," ++ s ++ "." ++ d.name ++ ");}"
+  | .readLet b d r => s!"let {b}:{d.ty}=unsafe" ++ "{" ++ s!"{r}.data.read({d.offset})" ++ "};"
   | .forgetSelf => "std::mem::forget(self);"
   | .manuallyDrop => "let manually_drop=std::mem::ManuallyDrop::new(from);"
   | .copyBuf m => s!"let {if m then "mut " else ""}data=unsafe" ++ "{std::ptr::read(&manually_drop.data)};"
   | .retSelfData => "Self{data}"
   | .letRecord c => s!"let record={c}" ++ "{data};"
   | .retStruct n fs => n ++ "{" ++ ",".intercalate fs ++ "}"
-  | .get t o => "unsafe{self.data.get::<" ++ t ++ ">(" ++ toString o ++ ")}"
-  | .getMut t o => "unsafe{self.data.get_mut::<" ++ t ++ ">(" ++ toString o ++ ")}"
+  | .get d => "unsafe{self.data.get::<" ++ d.ty ++ ">(" ++ toString d.offset ++ ")}"
+  | .getMut d => "unsafe{self.data.get_mut::<" ++ d.ty ++ ">(" ++ toString d.offset ++ ")}"
   | .raw s => s
 
 structure Fn where
@@ -190,31 +190,31 @@ def fragRecord (s : Spec) : List Item :=
 def ctorNew (s : Spec) : Fn :=
   let hasData := !s.data.isEmpty
   ⟨s!"pub fn new({if hasData then "from" else "_from"}:{unpackedName s.vid})->Self",
-   [.letBuf hasData] ++ s.data.map (fun d => .write d.offset "from" d.name) ++ [.retSelfData]⟩
+   [.letBuf hasData] ++ s.data.map (fun d => .write d "from") ++ [.retSelfData]⟩
 
 def ctorNewUninit (s : Spec) : Fn :=
   let uhd := s.data.any (fun d => !d.uninit)
   ⟨s!"pub fn new_uninit(from:{unpackedUninitName s.vid})->Self",
    [.safeFrom (if uhd then "from" else "_from") (unpackedSafeName s.vid) ((safeGeneric s.data).map (·.2.2)) "from",
     .letBuf uhd] ++
-   (s.data.filter (fun d => !d.uninit)).map (fun d => .write d.offset "from" d.name) ++ [.retSelfData]⟩
+   (s.data.filter (fun d => !d.uninit)).map (fun d => .write d "from") ++ [.retSelfData]⟩
 
 def unpackFn (s : Spec) : Fn :=
   ⟨s!"pub fn unpack(self)->{unpackedName s.vid}",
-   s.data.map (fun d => .readLet d.name d.ty "self" d.offset) ++
+   s.data.map (fun d => .readLet d.name d "self") ++
    [.forgetSelf, .retStruct (unpackedName s.vid) (s.data.map (·.name))]⟩
 
 def accessors (s : Spec) : List Fn :=
   (s.data.map fun d =>
-    [(⟨s!"pub fn {d.name}(&self)->&{d.ty}", [.get d.ty d.offset]⟩ : Fn),
-     ⟨tj s!"pub fn {d.name}_mut(&mut self)->&mut" d.ty, [.getMut d.ty d.offset]⟩]).flatten
+    [(⟨s!"pub fn {d.name}(&self)->&{d.ty}", [.get d]⟩ : Fn),
+     ⟨tj s!"pub fn {d.name}_mut(&mut self)->&mut" d.ty, [.getMut d]⟩]).flatten
 
 /-- `RecordImplGenerator` -/
 def fragRecordImpl (s : Spec) : List Item :=
   [.impl s!"impl<{CAPG}>{capped s.vid}<CAP>" ([ctorNew s, ctorNewUninit s, unpackFn s] ++ accessors s)]
 
 def dropFn (s : Spec) : Fn :=
-  ⟨"fn drop(&mut self)", s.data.map (fun d => .readLet ("_" ++ d.name) d.ty "self" d.offset)⟩
+  ⟨"fn drop(&mut self)", s.data.map (fun d => .readLet ("_" ++ d.name) d "self")⟩
 
 /-- `DropImplGenerator` -/
 def fragDrop (s : Spec) : List Item :=
@@ -243,11 +243,11 @@ def convFn (s : Spec) (uninit andOut : Bool) : Fn :=
   let uninitPlusHasData := uninit && s.plus.any (fun d => !d.uninit)
   let mutData := (!uninit && plusHasData) || (uninit && uninitPlusHasData)
   ⟨s!"fn from(({if uninit || plusHasData then "from,plus" else "from,_plus"}):{fromTy})->Self",
-   s.minus.map (fun d => .readLet ((if andOut then "" else "_") ++ d.name) d.ty "from" d.offset) ++
+   s.minus.map (fun d => .readLet ((if andOut then "" else "_") ++ d.name) d "from") ++
    (if uninit then [.safeFrom (if uninitPlusHasData then "plus" else "_plus") (inSafeName s.vid)
       ((safeGeneric s.plus).map (·.2.2)) "plus"] else []) ++
    [.manuallyDrop, .copyBuf mutData] ++
-   (s.plus.filter (fun d => !uninit || !d.uninit)).map (fun d => .write d.offset "plus" d.name) ++
+   (s.plus.filter (fun d => !uninit || !d.uninit)).map (fun d => .write d "plus") ++
    (if andOut then [.letRecord (capped s.vid), .retStruct (outName s.vid) ("record" :: s.minus.map (·.name))]
     else [.retSelfData])⟩
 
